@@ -10,7 +10,7 @@ RULE = ("random small programs (bounded/ref.py generator: lets used as gate argu
         "oracle: reference meaning evaluated with overridden lets vs meaning of fill_in_let(parse(text), overrides) evaluated with NO let "
         "environment; non-trivial = program mentions a let in body or header bounds")
 BOUND = "n <= 4, depth <= 3, <= 3 statements per block, overrides in {0,1,2,n,1.5} per let, <= 2 lets overridden"
-BUDGET_S = {"quick": 40, "thorough": 600}
+BUDGET_S = {"quick": 40, "thorough": 400}
 
 
 def mentions_let(text):
